@@ -161,7 +161,7 @@ fn parse_args() -> Args {
         trace: None,
         scale: 1.0,
         profile: "checked".into(),
-        phases: "dense,free,sched".into(),
+        phases: "dense,free,sched,tiny".into(),
     };
     let mut it = std::env::args().skip(1);
     while let Some(x) = it.next() {
@@ -406,7 +406,68 @@ fn main() {
         eprintln!("phase {phase}: {n} cases in {:.1}s", tp.elapsed().as_secs_f64());
     }
 
+    // ---- exhaustive enumeration of the schedules of tiny configurations (thorough tier)
+    let mut exhaustive = json!(null);
+    if thorough && args.phases.contains("tiny") {
+        let tiny = (def.tiny)();
+        let mut total_runs = 0u64;
+        let mut complete = 0u64;
+        let mut incomplete = 0u64;
+        let max_runs_per_case = 30_000u64;
+        for (i, base) in tiny.into_iter().enumerate() {
+            if (i as u32) % shard_n != shard_i {
+                continue;
+            }
+            let mut tape: Vec<u8> = vec![];
+            let mut runs = 0u64;
+            let mut done = false;
+            while runs < max_runs_per_case {
+                let mut case = base.clone();
+                if let Mode::Sched(s) = &mut case.mode {
+                    s.tape = tape.clone();
+                }
+                vharness::run::LAST_DECISIONS.lock().unwrap().clear();
+                if let Err(f) = ctx.eval(&case, "tiny-exhaustive") {
+                    report_violation(&args, &ctx, case, f, "tiny-exhaustive");
+                }
+                runs += 1;
+                // decisions of the primary run: concatenated over the runs of the case (eager stages run first)
+                let dec: Vec<(u8, u8)> = vharness::run::LAST_DECISIONS.lock().unwrap().first().cloned().unwrap_or_default();
+                // next tape in depth-first order
+                let mut i = dec.len();
+                let mut next: Option<Vec<u8>> = None;
+                while i > 0 {
+                    i -= 1;
+                    let (n, chosen) = dec[i];
+                    if chosen + 1 < n {
+                        let mut t: Vec<u8> = dec[..i].iter().map(|d| d.1).collect();
+                        t.push(chosen + 1);
+                        next = Some(t);
+                        break;
+                    }
+                }
+                match next {
+                    Some(t) => tape = t,
+                    None => {
+                        done = true;
+                        break;
+                    }
+                }
+            }
+            total_runs += runs;
+            if done {
+                complete += 1;
+            } else {
+                incomplete += 1;
+            }
+        }
+        exhaustive = json!({"schedules_run": total_runs, "configurations_completely_enumerated": complete, "configurations_cut_off_at_30000_schedules": incomplete});
+        eprintln!("tiny-exhaustive: {total_runs} schedules, {complete} configurations complete, {incomplete} cut off");
+    }
     let st = ctx.stats.borrow();
+    if let Some(path) = &args.part {
+        let _ = std::fs::write(format!("{path}.tiny"), exhaustive.to_string());
+    }
     write_part(&args, def, &st, t0.elapsed().as_secs_f64(), 0, dense_total, true);
     println!(
         "shard {}/{} of {}: {} cases, {} non-trivial ({} distinct), {} excluded as known findings, {:.1}s",
